@@ -449,8 +449,11 @@ theorem modeToks_classify : ∀ x ∈ modeToks, ∃ id long, classify x.1 = some
 
 theorem excl_init : Excl {} := by simp [Excl]
 
-/-- two different mode options on one command line (before any `--`) never give a plan -/
-theorem hrPlan_two_modes (argv : List Str) (a b : Str) (ma mb : HrMode) (ha : (a, ma) ∈ modeToks) (hb : (b, mb) ∈ modeToks)
+/-- two argument strings that argparse resolves to different bare mode options (exact spellings or unique
+    abbreviations), both before any `--`: never a plan -/
+theorem hrPlan_two_modes_gen (argv : List Str) (a b : Str) (ida idb : OptId) (la lb : Bool) (ma mb : HrMode)
+    (hca : classify a = some (.opt ida la none)) (hma : modeOf ida = some ma)
+    (hcb : classify b = some (.opt idb lb none)) (hmb : modeOf idb = some mb)
     (hne : ma ≠ mb) (hain : a ∈ argv.takeWhile (fun x => x != ddTok)) (hbin : b ∈ argv.takeWhile (fun x => x != ddTok)) :
     ∀ p, hrPlan argv ≠ .plan p := by
   intro p hp
@@ -459,12 +462,18 @@ theorem hrPlan_two_modes (argv : List Str) (a b : Str) (ma mb : HrMode) (ha : (a
   | none => simp [hc] at hp
   | some cs =>
     simp only [hc] at hp
-    obtain ⟨ida, la, hca, hma⟩ := modeToks_classify (a, ma) ha
-    obtain ⟨idb, lb, hcb, hmb⟩ := modeToks_classify (b, mb) hb
     have h2 := (runArgs_modes {} cs p excl_init hp).2
     have e1 := h2 ida la ma hma (mem_classifyAll argv cs hc a _ hain hca)
     have e2 := h2 idb lb mb hmb (mem_classifyAll argv cs hc b _ hbin hcb)
     exact hne (e1.symm.trans e2)
+
+/-- two different mode options in their exact spellings on one command line (before any `--`) never give a plan -/
+theorem hrPlan_two_modes (argv : List Str) (a b : Str) (ma mb : HrMode) (ha : (a, ma) ∈ modeToks) (hb : (b, mb) ∈ modeToks)
+    (hne : ma ≠ mb) (hain : a ∈ argv.takeWhile (fun x => x != ddTok)) (hbin : b ∈ argv.takeWhile (fun x => x != ddTok)) :
+    ∀ p, hrPlan argv ≠ .plan p := by
+  obtain ⟨ida, la, hca, hma⟩ := modeToks_classify (a, ma) ha
+  obtain ⟨idb, lb, hcb, hmb⟩ := modeToks_classify (b, mb) hb
+  exact hrPlan_two_modes_gen argv a b ida idb la lb ma mb hca hma hcb hmb hne hain hbin
 
 /-! ### priority names -/
 
